@@ -80,14 +80,17 @@ def chain_into(ns, ctx, leg, t):
     if not isinstance(leg, ns.constants.Transformation):
         return
     ctx.count('derived_sets_edited_by_caller')
-    for p in hx.P14:
-        v = getattr(leg, p, None)
-        if isinstance(v, (int, float)):
-            setattr(leg, p, v + getattr(t, p) + 0.001)
-    leg.to_datum = 'CHAINED'
-    leg.from_datum = str(leg.from_datum) + '*'
-    if isinstance(leg.ref_epoch, datetime.date):
-        leg.ref_epoch = leg.ref_epoch + datetime.timedelta(days=1)
+    try:
+        for p in hx.P14:
+            v = getattr(leg, p, None)
+            if isinstance(v, (int, float)):
+                setattr(leg, p, v + getattr(t, p) + 0.001)
+        leg.to_datum = 'CHAINED'
+        leg.from_datum = str(leg.from_datum) + '*'
+        if isinstance(leg.ref_epoch, datetime.date):
+            leg.ref_epoch = leg.ref_epoch + datetime.timedelta(days=1)
+    except (AttributeError, TypeError):
+        ctx.count('derived_set_refused_the_edit(read-only object)')      # a set that cannot be edited cannot be corrupted this way
 
 
 def enumerate_catalogue(ns, ctx):
